@@ -634,6 +634,13 @@ pub fn run(args: &Args) -> i32 {
     for &o in &offs {
         let pad = o - 52;
         cases.push(Case { label: format!("small entry whose header offset is {o}"), items: vec![it(pad, true), it(7, false)], comment: vec![] });
+        // the same with the small entry declared large_file (its sizes fit 32 bits, its offset does not), compressed so that
+        // the two sizes differ, and followed by an ordinary entry
+        cases.push(Case {
+            label: format!("small deflated large_file entry whose header offset is {o}, then a plain one"),
+            items: vec![it(pad, true), Item { size: 300, large: true, method: 8, password: false }, it(9, false)],
+            comment: b"lf".to_vec(),
+        });
     }
     // exactly 2^32-1 bytes behind the 4 GiB mark (size field saturated while only the offset needs ZIP64)
     cases.push(Case { label: "entry of 2^32-1 bytes (not large) at an offset beyond 4 GiB".into(), items: vec![it(G4 + 100, true), it(G4 - 1, false)], comment: vec![] });
@@ -657,7 +664,7 @@ pub fn run(args: &Args) -> i32 {
     let counts: Vec<usize> = vec![0, 1, 65534, 65535, 65536, 65537, 70000];
     ctx.rule = format!(
         "E-PROD over boundary values through a sparse in-memory sink/source (64 KiB pages; zero pages are holes). Entry counts {:?} x comment {{none, 'c'}}. Size/offset cases ({}): stored zero-filled entries of {:?} bytes x large_file {{no,yes}} (first, and followed by a small entry with an archive comment); \
-         small entries whose local header offset is exactly {:?}; an entry of exactly 2^32-1 bytes behind the 4 GiB mark{}. Oracle: without large_file, more than 2^32-1 bytes must be refused by some call and never end in a finished archive with other sizes; otherwise finish succeeds and both the strict independent parser (on the sparse blob) and the crate reader \
+         small entries (plain, and deflated with large_file set) whose local header offset is exactly {:?}; an entry of exactly 2^32-1 bytes behind the 4 GiB mark{}. Oracle: without large_file, more than 2^32-1 bytes must be refused by some call and never end in a finished archive with other sizes; otherwise finish succeeds and both the strict independent parser (on the sparse blob) and the crate reader \
          recover count, every size, CRC (of zeros, computed by CRC combination), every offset, and the full content length. Foreign: 512 small builder-made archives with ZIP64 values forced in every subset of {{size, compressed size, offset}} (sizes differing, block before/after other blocks, with/without local ZIP64 block and 64-bit data descriptor); sparse hand-built archives with true > 4 GiB size and/or header offset, with minimal and with all-fields ZIP64 blocks (6 layouts); raw copy of a 2^32+1-byte entry between sparse archives; raw copies of a compressed entry whose size (2^32-1 .. 2^40) but not compressed size needs ZIP64; 157 programs with the large_file flag on small entries (plain, extra data in every placement, aligned) judged by the strict parser and both readers. distinct_nontrivial = number of distinct cases (each is unique).",
         counts,
         cases.len(),
